@@ -125,6 +125,7 @@ type Exchange struct {
 	HeadEnd   int             `json:"headEnd"`
 	WireLen   int             `json:"wireLen"`
 	PeerClose bool            `json:"peerClose"` // the scripted peer closes the connection after this response
+	Early     bool            `json:"early"`     // the peer answers at once and closes, without reading the request
 	prog      Prog
 	script    Script
 }
@@ -225,6 +226,7 @@ type worker struct {
 	conns   []*peerConn
 	ncs     []network.Conn
 	used    int // scripted connection the exchange in progress wrote its request to (0: none)
+	earlyDone int // exchange whose early answer has been queued
 	origins []vnet.Origin
 	// hertz-side decode of the captured request
 	hz []vtrace.Rec
@@ -522,6 +524,24 @@ func (w *worker) onRequest(c *peerConn, req []byte) (wire []byte, cuts []int, cl
 	return wire, cuts, e.PeerClose
 }
 
+// onEarly is called by a scripted connection at the first write of an exchange whose peer answers early: the response
+// is queued, the connection closed by the peer, the write fails.
+func (w *worker) onEarly(c *peerConn) (wire []byte, cuts []int, ok bool) {
+	x := w.x
+	if x < 1 || x > len(w.cur.Xs) || !w.cur.Xs[x-1].Early || w.earlyDone == x {
+		return nil, nil, false
+	}
+	w.earlyDone = x
+	w.used = c.id
+	e := w.cur.Xs[x-1]
+	wire = wireBytes(e.Wire)
+	if x-1 < len(w.cur.Cuts) {
+		cuts = w.cur.Cuts[x-1]
+	}
+	w.ev("EarlyReply", map[string]interface{}{"x": x, "conn": c.id, "n": len(wire)})
+	return wire, cuts, true
+}
+
 // ---------------------------------------------------------------- the client side
 
 func errClass(err error) string {
@@ -616,6 +636,7 @@ func (w *worker) run(c *Case) {
 	w.cur = c
 	w.x = 0
 	w.conns = w.conns[:0]
+	w.earlyDone = 0
 	w.ncs = w.ncs[:0]
 	w.origins = w.origins[:0]
 	for len(c.Cuts) < len(c.Xs) {
@@ -644,7 +665,7 @@ func (w *worker) run(c *Case) {
 		if e.script.Pad > 0 {
 			w.origins = append(w.origins, vnet.Origin{I: e.script.PadI, Len: e.script.Pad})
 		}
-		echo = append(echo, map[string]interface{}{"prog": e.Prog, "script": e.Script, "wire": e.Wire, "headEnd": e.HeadEnd, "wireLen": e.WireLen, "peerClose": e.PeerClose})
+		echo = append(echo, map[string]interface{}{"prog": e.Prog, "script": e.Script, "wire": e.Wire, "headEnd": e.HeadEnd, "wireLen": e.WireLen, "peerClose": e.PeerClose, "early": e.Early})
 	}
 	tr.Emit("Case", vtrace.Rec{"id": c.ID, "cfg": c.Cfg, "xs": echo, "cuts": c.Cuts, "cutTag": c.CutTag, "tag": c.Tag, "cutX": c.CutX})
 
